@@ -194,7 +194,31 @@ func discharge(u *Unit, o *Obligation, cfg *solveCfg, idx int) {
 		go func() { <-ch }()
 		return
 	}
-	record(<-ch)
+	if record(<-ch) {
+		return
+	}
+	// undecided (quantifiers): look for a candidate counterexample of the quantifier-free part; it only
+	// counts if the replay confirms it on the real code
+	qfs := qfPart(script)
+	qf := file + ".qf.smt2"
+	os.WriteFile(qf, []byte(qfs), 0o644)
+	r := runSolver("z3-new", qf, cfg.quickT)
+	o.Secs += r.secs
+	if r.status == "sat" {
+		o.Candidate = qfs
+		o.Model = r.out
+	}
+}
+
+func qfPart(script string) string {
+	var sb strings.Builder
+	for _, l := range strings.Split(script, "\n") {
+		if strings.HasPrefix(l, "(assert") && (strings.Contains(l, "(forall ") || strings.Contains(l, "(exists ")) && !strings.HasPrefix(l, "(assert (not ") {
+			continue
+		}
+		sb.WriteString(l + "\n")
+	}
+	return sb.String()
 }
 
 func firstLines(s string, n int) string {
